@@ -112,7 +112,7 @@ def parseInput (s : String) : Option Input := do
   let cf ← parseNats (getS kv "cf")
   let rf ← parseNats (getS kv "rf")
   -- bad=1 (hook / engine path): the user's settings do not decode, so EVERY fillConf invocation fails
-  let bad := getS kv "bad" == "1"
+  let bad := getS kv "bad" == "1" || getS kv "bad" == "2"
   let w : World := { dflt := d, user := u, hasFill := getS kv "fill" == "1",
                      fillFault := if bad then fun _ => true else ff.contains,
                      ctorFault := cf.contains, factFault := rf.contains }
@@ -225,7 +225,7 @@ def eraseFills (o : Obs) : Obs :=
 applied), the per-call structure (default-config / constructor / factory invocations, identities, views) as for a
 run without fillConf -/
 def judgeHook (inp : Input) (obs : Option Obs) (bad : Bool) (skipConfig : Bool := false) (rule : Rule := ⟨3, 0⟩)
-    (fs : List Nat := fields) : String :=
+    (fs : List Nat := fields) (undec : Bool := false) : String :=
   let noFill : Input := { inp with w := { inp.w with hasFill := false } }
   match obs with
   | none => judge inp obs fs
@@ -241,6 +241,8 @@ def judgeHook (inp : Input) (obs : Option Obs) (bad : Bool) (skipConfig : Bool :
       "fail:errors:a component was built from a configuration that fails validation (the config error did not reach the caller)"
     else if !invalidRefusedOk rule inp o then
       "fail:errors:the configuration (defaults overlaid by the user's settings) fails validation, but an operation that needs it did not end with the config error"
+    else if undec && !(o.steps.all (fun s => isMade s || resFill s) && (products o.steps).isEmpty) then
+      "fail:errors:the user's settings do not decode (a wrongly typed value / an option the config type does not have), but an operation that needs the configuration did not end with the config error"
     else if !bad && !validAcceptedOk rule inp o then "fail:errors:a valid configuration was refused with a config error"
     else if !errorsOk inp restored then "fail:errors:error not delivered as the error result / panic rule"
     else if !skipConfig && !configOk inp o fs then "fail:config:product config is not defaults overlaid by user settings"
@@ -881,6 +883,10 @@ def handlePlain (input impl : String) : String × String :=
                              else run inp) xf
     -- an operation that hands out neither a component nor an error (a nil component with a nil error, printed
     -- `nil` by the harness) has no place in `Res`: that is an error that did not reach the caller
+    -- round 4: products that were configured separately hold one map / list / nested struct (the harness says so only
+    -- when it happens: `shared=N`)
+    if (lookup (parseKV impl) "shared").isSome then
+      (m, "fail:fresh:products of a component constructor share a map / list / nested-struct option of their configurations (not freshly created and decoded per product)") else
     if (splitList (getS (parseKV impl) "steps") ";").any (fun st => st.endsWith ">nil") then
       (m, "fail:errors:nil component with nil error (an error did not reach the caller)")
     else if (impl.splitOn ">err.other:").length > 1 || (impl.splitOn ">panic.other:").length > 1 then
@@ -897,7 +903,7 @@ def handlePlain (input impl : String) : String × String :=
             | _ => s }
         else obs
       let rule := ruleOf (parseKV input)
-      (m, if hook then judgeHook inp obs (getS (parseKV input) "bad" == "1" || !ruleHolds rule inp) false rule (fields ++ xf)
+      (m, if hook then judgeHook inp obs (getS (parseKV input) "bad" == "1" || getS (parseKV input) "bad" == "2" || !ruleHolds rule inp) false rule (fields ++ xf) (getS (parseKV input) "bad" == "1" || getS (parseKV input) "bad" == "2")
           else judge inp obs fields)
 
 /-! ### `conc=1`: several registrations of ONE registry, their creations running concurrently (one goroutine each).
@@ -924,7 +930,10 @@ every goroutine with its own settings.  The observation is independent of the sc
 and identities per goroutine, totals for the case).  The model: every goroutine's creation is a run of its own — at
 step granularity the real execution is a session on one registration (any interleaving of creations and factory calls),
 and `C18_session` gives every step of a session the clauses of the single-creation Spec w.r.t. the settings of ITS
-creation, pairwise distinct configurations and undisturbed final views; `C18_par` is that statement for this driver. -/
+creation, pairwise distinct configurations and undisturbed final views (the step-level interleavings only: what happens
+INSIDE concurrently running registry / decoder code is observed — results, totals, the race detector — not modelled).
+The verdict below judges every goroutine's results against ITS settings directly (Spec clauses on the real observation);
+the model observation (every goroutine a run of its own) is the prediction the session theorem justifies. -/
 namespace Par
 
 def tokOf (xf : List Nat) : Res → String
@@ -1021,6 +1030,8 @@ def handlePar (input impl : String) : String × String :=
          (ms, s!"fail:race:a data race between creations that run concurrently on one registration through the config hooks: {(impl.drop 5).toString}") else
        if impl == "regpanic" then (ms, "fail:regpanic:valid registration panicked") else
        let ikv := parseKV impl
+       if (lookup ikv "shared").isSome then
+         (ms, "fail:fresh:products built concurrently from separately decoded configurations share a map / list / nested-struct option") else
        let iG := ((getS ikv "res").splitOn ";").map unrle
        -- the Spec on what the goroutines got
        let inpOfG (j : Nat) : Option Input := if mode == "one" then inps.head? else inps[j]?
